@@ -1,5 +1,6 @@
 import Tahoe.Mutable.PublishLemmas
 import Tahoe.Mutable.PublishRunLemmas
+import Tahoe.Mutable.WireTestv
 /-! C47 — a successful mutable publish is recoverable (property theorems; helper lemmas live in
     `Tahoe/Mutable/PublishLemmas.lean`). -/
 /-!
@@ -8,7 +9,7 @@ import Tahoe.Mutable.PublishRunLemmas
 | clause of the statement | theorem(s) |
 |---|---|
 | "reports success only if servers acknowledged storing the new version's shares for at least k distinct share numbers" | `success_implies_k_acked` (bookkeeping level: ≥ k share numbers with a proxy never dropped and only answered `wrote=True`), `success_implies_k_stored` (end to end: ≥ k distinct share numbers are *stored* on the servers, through proxy layer + callback chain + storage semantics, for every arrival order and failure pattern), `bookkeeping_sound` (`placed`, `bad_servers`, `goal`, `writers` after any answer sequence) |
-| "…and no unexpected version was encountered" | `success_implies_k_acked` (third conjunct), `refused_or_surprising_write_is_ucw` |
+| "…and no unexpected version was encountered" | `success_implies_k_acked` (third conjunct), `refused_or_surprising_write_is_ucw`; that a write guarded by a test vector cannot land on a share holding anything else: `wire_testv_guards` (the 4-tuple `_StorageServer` puts on the wire + the server's compare; tied by the `testv` cases: the real glue's tuples and a real storage server's verdict vs the model) and C12 `new_share_write_must_not_exist` |
 | "It reports an error when fewer than k shares could be placed" | `fewer_than_k_fails`, `fewer_than_k_stored_fails` (end to end) |
 | quantifier: SDMF and MDMF, create and update | one model for both: both proxies send one request per share (`finish_publishing`); `update()` differs only in the initial goal (known shares only) — covered by the arbitrary initial `writers`; tied per format by correspondence (`pub`, `rpc`, `proxy` cases of harness/props/c47.py) |
 | quantifier: failing and slow servers, failures on any write, every response ordering | all theorems quantify over arbitrary arrival lists (`Rpc.lostBefore`, `lostAfter`, refused answers, any order); a hung server = no arrival: the publish never reports (hypothesis `hfired` is Twisted's `DeferredList` contract) |
@@ -212,5 +213,35 @@ theorem fault_free_publish_stores_all (goal : List (Nat × Nat)) (bad : List Nat
 example : writersOfGoal [(1, 0), (1, 1), (1, 2)] = [⟨0, 1⟩, ⟨1, 1⟩, ⟨2, 1⟩] ∧
     storedSlots [((⟨0, 1⟩ : Writer), Rpc.answered true []), (⟨1, 1⟩, .answered true []), (⟨2, 1⟩, .answered true [])]
       = [(1, 0), (1, 1), (1, 2)] := by decide
+
+/-! ### the wire form of the test vectors (storage_client glue + the server's compare) -/
+open Tahoe.Mutable.Wire in
+/-- The "share must not exist yet" vector, as it goes over the wire, passes exactly on a missing or zero-length
+    share; a checkstring vector passes exactly on a share that starts with that checkstring and never on a missing
+    share.  So a write guarded by either cannot land on a share holding anything else. -/
+theorem wire_testv_guards (share : Option (List Nat)) (cs : List Nat) (hcs : cs ≠ []) :
+    (passes share (wireOf mustNotExist) = true ↔ share = none ∨ share = some []) ∧
+    (passes share (wireOf (holds cs)) = true ↔ ∃ data, share = some data ∧ data.take cs.length = cs) := by
+  constructor
+  · cases share with
+    | none => simp [passes, wireOf, mustNotExist]
+    | some data =>
+      cases data with
+      | nil => simp [passes, wireOf, mustNotExist]
+      | cons a l => simp [passes, wireOf, mustNotExist]
+  · cases share with
+    | none =>
+      simp only [passes, wireOf, holds, reduceCtorEq, false_and, exists_false, iff_false]
+      cases cs with
+      | nil => exact absurd rfl hcs
+      | cons a l => simp
+    | some data => simp [passes, wireOf, holds]
+
+open Tahoe.Mutable.Wire in
+example : passes (some [1, 2, 3]) (wireOf mustNotExist) = false ∧ passes none (wireOf mustNotExist) = true ∧
+    passes (some [1, 2, 3]) (wireOf (holds [1, 2])) = true ∧ passes (some [9, 2, 3]) (wireOf (holds [1, 2])) = false ∧
+    wireOf mustNotExist = (0, 1, "eq", []) ∧
+    -- what the seeded change C47-e sent instead, `(0, len(specimen), eq, specimen)`, passes on every share:
+    passes (some [1, 2, 3]) (0, 0, "eq", []) = true := by decide
 
 end Tahoe.C47
